@@ -208,7 +208,7 @@ func run[
 		return fail("policy: %v", err)
 	}
 	var dealt *keys.Dealt[GE, S]
-	if p := vh.Safely(func() { dealt, err = keys.Deal[GE, S](group, pol, vh.NewRng(cfg.Seed, cfg.Prop, "deal", 0)) }); p != "" {
+	if p := vh.Safely(func() { dealt, err = keys.Material[GE, S](cfg.Common, group, pol) }); p != "" {
 		return fail("dealer panicked: %s", p)
 	}
 	if err != nil {
